@@ -13,6 +13,8 @@ CONSTANTS
   ClassComments <- NoComment
   TopAlpha <- DescTops
   MaxTops = 3
+  AliasAlpha <- None
+  MaxAliases = 0
   CmdKinds <- None
 INVARIANT OneOwner
 INVARIANT RefsBackward
